@@ -92,7 +92,7 @@ def gen_scenario(r: random.Random, task: Optional[str] = None, n_frames: Optiona
     n_frames = n_frames or r.randint(1, 4 if not big else 8)
     wide = r.choice([30.0, 60.0, 100.0])
     far_ego = r.random() < 0.5
-    far = r.choice([1e4, 1e5])  # map coordinates of the order of an MGRS grid cell
+    far = r.choice([1e4, 1e5, 1e5])  # map coordinates of the order of an MGRS grid cell
     ego_pos = (r.uniform(-far, far), r.uniform(-far, far), r.uniform(-3, 3)) if far_ego else (r.uniform(-100, 100), r.uniform(-100, 100), 0.0)
     ego_yaw = O.rand_yaw(r)
     ego_speed = r.uniform(0, 15) if not fast_ego else r.uniform(15, 40)
@@ -121,7 +121,7 @@ def gen_scenario(r: random.Random, task: Optional[str] = None, n_frames: Optiona
                 key=f"inst{i:03d}",
                 cat=cat,
                 # a few objects well above / below the ego (overpass, ramp): planar range criteria must ignore height
-                p=[rad * math.cos(ang), rad * math.sin(ang), r.uniform(-0.5, 0.5) if r.random() > 0.08 else r.choice([-1, 1]) * r.uniform(4.0, 15.0)],
+                p=[rad * math.cos(ang), rad * math.sin(ang), r.uniform(-0.5, 0.5) if r.random() > 0.15 else r.choice([-1, 1]) * r.uniform(4.0, 15.0)],
                 v=[r.uniform(-8, 8), r.uniform(-8, 8)],
                 yaw=O.rand_yaw(r),
                 yawrate=r.uniform(-0.3, 0.3),
@@ -134,7 +134,7 @@ def gen_scenario(r: random.Random, task: Optional[str] = None, n_frames: Optiona
                 trk_id=f"trk{i:03d}",
             )
         )
-    if tracks and r.random() < 0.2:
+    if tracks and r.random() < 0.3:
         # two distinct objects of one label standing / moving side by side a few decimetres apart (a group of
         # pedestrians): distinct ground truths however close they are
         src = r.choice(tracks)
@@ -287,8 +287,8 @@ def gen_scenario(r: random.Random, task: Optional[str] = None, n_frames: Optiona
         c = {"target_labels": crit_labels, **_ring_or_box(r, len(crit_labels), wide)}
         if r.random() < 0.3:
             c["min_point_numbers"] = [r.choice([0, 1, 5]) for _ in crit_labels]
-        if r.random() < 0.2:
-            c["confidence_threshold_list"] = [round(r.uniform(0, 0.4), 2) for _ in crit_labels]
+        if r.random() < 0.35:
+            c["confidence_threshold_list"] = [round(r.uniform(0, 0.6), 2) for _ in crit_labels]
         if tracks and r.random() < 0.1:
             c["target_uuids"] = [t["key"] for t in r.sample(tracks, r.randint(1, len(tracks)))]
         if r.random() < 0.1:
@@ -299,7 +299,7 @@ def gen_scenario(r: random.Random, task: Optional[str] = None, n_frames: Optiona
             pf_labels.append("false_positive")
         pf = {"target_labels": pf_labels, "matching_threshold_list": [round(r.choice([0.05, 0.5, 1.0, 2.0, 5.0, 50.0]) * r.uniform(0.8, 1.2), 3) if r.random() > 0.06 else 0.0 for _ in pf_labels]}
         passfail.append(pf)
-    if n_frames > 1 and r.random() < 0.4:
+    if n_frames > 1 and r.random() < 0.5:
         # one critical filter / pass-fail configuration for the whole sequence (what a driver script does): the very same
         # configuration objects are then handed to every frame (see Run.configs)
         critical = [critical[0]] * n_frames
